@@ -68,7 +68,7 @@ Lemma foreign_refused_obj fx o B :
 Proof.
   intros Hfx Hok. unfold lib_out_addr_obj, lib_output, lib_args_in.
   cbn [a_addr a_hash a_pubkey a_lock a_stype a_witver a_enc a_net tb].
-  unfold lib_output_k. cbn [a_addr a_hash a_pubkey a_lock a_stype a_witver a_enc a_net].
+  unfold lib_output_k, lib_output_core. cbn [a_addr a_hash a_pubkey a_lock a_stype a_witver a_enc a_net].
   rewrite Hfx, Hok. reflexivity.
 Qed.
 
@@ -78,7 +78,7 @@ Lemma foreign_refused_hd fx o pub w ms B :
 Proof.
   intros Hfx Hok. unfold lib_out_hd, lib_output, lib_args_in.
   cbn [a_addr a_hash a_pubkey a_lock a_stype a_witver a_enc a_net tb].
-  unfold lib_output_k. cbn [a_addr a_hash a_pubkey a_lock a_stype a_witver a_enc a_net].
+  unfold lib_output_k, lib_output_core. cbn [a_addr a_hash a_pubkey a_lock a_stype a_witver a_enc a_net].
   rewrite Hfx, Hok. destruct pub; reflexivity.
 Qed.
 
